@@ -213,6 +213,10 @@ class Store:
     def cmd_formNetwork(self, h, a):
         import bellows.types as t
 
+        if getattr(self, "fail_form_once", False):
+            # the NCP refuses to form the network (once): what was written before stays in its tables
+            self.fail_form_once = False
+            return {"status": self.st("formNetwork", False)}
         self.params = a["parameters"]
         self.formed = True
         self.up = True
